@@ -26,6 +26,8 @@ type VOpt struct {
 	NoNaNKeys bool
 	// OmitRequired lists (struct name, field id) pairs to leave out; used by C09.
 	Present float64 // probability that a non-required field is written (0 => 0.7)
+	// OddBools: a foreign writer that sends bytes other than 0/1 for true (the decoder keeps the byte as it is)
+	OddBools bool
 }
 
 type vgen struct {
@@ -46,6 +48,9 @@ func (v *vgen) scalar(t *T, maxStr int) *W {
 	switch t.K {
 	case Bool:
 		w.I = int64(r.Intn(2))
+		if v.o.OddBools && r.Chance(1, 2) {
+			w.I = int64(2 + r.Intn(254))
+		}
 	case I8:
 		w.I = int64(int8(v.pickInt()))
 	case I16:
@@ -121,10 +126,53 @@ func (v *vgen) structW(s *StructDef, depth int) *W {
 			continue
 		}
 		v.rem -= 3
+		if f.Def != nil && r.Chance(1, 2) {
+			w.F = append(w.F, WF{f.ID, v.nearDefault(f)})
+			continue
+		}
 		w.F = append(w.F, WF{f.ID, v.value(f.T, depth)})
 	}
 	if v.o.Foreign {
 		v.foreign(s, w, depth)
+	}
+	return w
+}
+
+// nearDefault draws a value that is the declared default or something easily confused with it: the same bits, the
+// other zero, another NaN payload, the default +/- 1, the empty value.
+func (v *vgen) nearDefault(f *Field) *W {
+	w := f.Def.Clone()
+	w.Count = -1
+	switch f.T.K {
+	case Double:
+		bits := uint64(w.I)
+		fl := math.Float64frombits(bits)
+		switch v.r.Intn(4) {
+		case 0:
+			if fl == 0 {
+				w.I = int64(bits ^ 1<<63) // the other zero: equal as floats, different bits
+			}
+		case 1:
+			if fl != fl {
+				w.I = int64(bits ^ 0x5) // another NaN: different bits, and unequal to itself anyway
+			}
+		}
+	case I8, I16, I32, I64, Enum:
+		if v.r.Chance(1, 4) {
+			w.I += int64(v.r.Intn(3)) - 1
+			switch f.T.K {
+			case I8:
+				w.I = int64(int8(w.I))
+			case I16:
+				w.I = int64(int16(w.I))
+			case I32, Enum:
+				w.I = int64(int32(w.I))
+			}
+		}
+	case String, Binary:
+		if v.r.Chance(1, 4) {
+			w.B = nil
+		}
 	}
 	return w
 }
